@@ -43,11 +43,14 @@ func Main() {
 	w := bufio.NewWriterSize(os.Stdout, 1<<16)
 	defer w.Flush()
 	emit := func(id string, s int64, script []string) {
-		res := c.Exec(script, comp.Options{Seed: s, Grace: *grace, Tier: *tier})
+		// the script is on the output before it runs: if the implementation brings the process down
+		// (a runtime fatal error cannot be recovered), the check still knows the failing input
 		fmt.Fprintf(w, "BEGIN %s seed=%d\n", id, s)
 		for _, l := range script {
 			fmt.Fprintf(w, "S %s\n", l)
 		}
+		w.Flush()
+		res := c.Exec(script, comp.Options{Seed: s, Grace: *grace, Tier: *tier})
 		for _, t := range res.Tags {
 			fmt.Fprintf(w, "T %s\n", t)
 		}
